@@ -409,12 +409,27 @@ func (sn *stepNode) deliver(m wire.Message) {
 // peer's best when it sent the message replaces the previous one if it is higher or on another
 // branch.
 func (sn *stepNode) noteDelivered(pm peerMsg) {
-	hm, ok := pm.msg.(*wire.MsgHeaders)
-	if !ok || pm.bestAtSend == nil {
+	if pm.bestAtSend == nil {
 		return
 	}
-	for _, h := range hm.Headers {
-		b, ok := sn.peer.tree.ByHash[*h.BlockHash()]
+	var hashes []bitcoin.Hash32
+	switch m := pm.msg.(type) {
+	case *wire.MsgHeaders:
+		for _, h := range m.Headers {
+			hashes = append(hashes, *h.BlockHash())
+		}
+	case *wire.MsgInv:
+		// a block inventory item is the other way a Bitcoin node announces a new tip
+		for _, item := range m.InvList {
+			if item.Type == wire.InvTypeBlock {
+				hashes = append(hashes, item.Hash)
+			}
+		}
+	default:
+		return
+	}
+	for _, hash := range hashes {
+		b, ok := sn.peer.tree.ByHash[hash]
 		if !ok || !pm.bestAtSend.OnPath(b) {
 			continue
 		}
